@@ -41,6 +41,26 @@ class FunctionInfo:
         return any(d.endswith('weak_lru_cache') for d in self.decorators)
 
     @property
+    def is_generator(self):
+        g = getattr(self, '_is_gen', None)
+        if g is None:
+            g = False
+            stack = list(self.node.body)
+            while stack:
+                n = stack.pop()
+                if isinstance(n, (ast.Yield, ast.YieldFrom)):
+                    g = True
+                    break
+                if isinstance(n, (ast.FunctionDef, ast.AsyncFunctionDef, ast.Lambda, ast.ClassDef)):
+                    continue
+                stack.extend(ast.iter_child_nodes(n))
+            try:
+                object.__setattr__(self, '_is_gen', g)
+            except Exception:
+                pass
+        return g
+
+    @property
     def is_plot_backend(self):
         return any(d.endswith('plot_backend') for d in self.decorators)
 
